@@ -2,12 +2,15 @@
 package cfg
 
 import (
+	"regexp"
 	"strings"
 
 	"github.com/yuin/goldmark"
 	"github.com/yuin/goldmark/extension"
 	"github.com/yuin/goldmark/parser"
+	"github.com/yuin/goldmark/renderer"
 	"github.com/yuin/goldmark/renderer/html"
+	"github.com/yuin/goldmark/util"
 )
 
 // Extension-set identifiers.
@@ -44,6 +47,12 @@ type Spec struct {
 	// Rich builds every extension that has options with non-default options (Linkify with an explicit protocol list,
 	// Footnote with id prefix / titles / classes, Typographer with substitutions, Table with the attribute align method).
 	Rich bool
+	// Rich2 (with Rich): the second option variant - Typographer with several substitutions *disabled* (nil), Linkify with
+	// its own regular expressions, Footnote with a prefix function and custom back-link HTML entity.
+	Rich2 bool
+	// Direct: renderer flags are given to html.NewRenderer(...) itself, inside a caller-built renderer.NewRenderer, instead
+	// of goldmark.WithRendererOptions (core only: extension renderers receive options by name, not through this route).
+	Direct bool
 }
 
 // Single extension names usable in Spec.Only.
@@ -106,6 +115,12 @@ func (s Spec) Name() string {
 	if s.Rich {
 		b.WriteString(",rich")
 	}
+	if s.Rich2 {
+		b.WriteString(",rich2")
+	}
+	if s.Direct {
+		b.WriteString(",direct")
+	}
 	return b.String()
 }
 
@@ -118,6 +133,12 @@ func (s Spec) table() goldmark.Extender {
 	}
 	return extension.Table
 }
+
+var (
+	richURLRegexp   = regexp.MustCompile(`^(?:https|gopher)://[a-z0-9.\-]+(?:/[^\s<]*)?`)
+	richWWWRegexp   = regexp.MustCompile(`^www\.[a-z0-9.\-]+(?:/[^\s<]*)?`)
+	richEmailRegexp = regexp.MustCompile(`^[a-z0-9.+_\-]+@[a-z0-9.\-]+\.[a-z]+`)
+)
 
 // FootnoteIDPrefix returns the id prefix the Footnote extension of this configuration is built with.
 func (s Spec) FootnoteIDPrefix() string {
@@ -153,6 +174,10 @@ func (s Spec) cjk(style extension.EastAsianLineBreaks, esc bool) goldmark.Extend
 }
 
 func (s Spec) linkify() goldmark.Extender {
+	if s.Rich && s.Rich2 {
+		return extension.NewLinkify(extension.WithLinkifyAllowedProtocols([][]byte{[]byte("https:"), []byte("gopher:")}),
+			extension.WithLinkifyURLRegexp(richURLRegexp), extension.WithLinkifyWWWRegexp(richWWWRegexp), extension.WithLinkifyEmailRegexp(richEmailRegexp))
+	}
 	if s.Rich {
 		return extension.NewLinkify(extension.WithLinkifyAllowedProtocols([]string{"http:", "https:", "ftp:", "mailto:"}))
 	}
@@ -160,6 +185,13 @@ func (s Spec) linkify() goldmark.Extender {
 }
 
 func (s Spec) typographer() goldmark.Extender {
+	if s.Rich && s.Rich2 {
+		// nil disables a substitution: the source characters must then come out as ordinary (escaped) text
+		return extension.NewTypographer(extension.WithTypographicSubstitutions(map[extension.TypographicPunctuation][]byte{
+			extension.LeftAngleQuote: nil, extension.RightAngleQuote: nil, extension.LeftDoubleQuote: nil, extension.RightDoubleQuote: nil,
+			extension.Apostrophe: nil, extension.EnDash: []byte("&ndash;"), extension.EmDash: nil,
+		}))
+	}
 	if s.Rich {
 		return extension.NewTypographer(extension.WithTypographicSubstitutions(map[extension.TypographicPunctuation]string{
 			extension.LeftDoubleQuote: "&laquo;", extension.RightDoubleQuote: "&raquo;", extension.Ellipsis: "&hellip;",
@@ -268,6 +300,23 @@ func (s Spec) RendererOptions() []goldmark.Option {
 
 // Build creates a fresh goldmark instance.
 func (s Spec) Build() goldmark.Markdown {
+	if s.Direct {
+		var ho []html.Option
+		if s.Unsafe {
+			ho = append(ho, html.WithUnsafe())
+		}
+		if s.XHTML {
+			ho = append(ho, html.WithXHTML())
+		}
+		if s.HardWraps {
+			ho = append(ho, html.WithHardWraps())
+		}
+		opts := []goldmark.Option{goldmark.WithRenderer(renderer.NewRenderer(renderer.WithNodeRenderers(util.Prioritized(html.NewRenderer(ho...), 1000))))}
+		if po := s.ParserOptions(); po != nil {
+			opts = append(opts, goldmark.WithParserOptions(po...))
+		}
+		return goldmark.New(opts...)
+	}
 	opts := []goldmark.Option{goldmark.WithExtensions(s.Extenders()...)}
 	if po := s.ParserOptions(); po != nil {
 		opts = append(opts, goldmark.WithParserOptions(po...))
@@ -334,6 +383,10 @@ func RichSpecs() []Spec {
 				Spec{Ext: e, Rich: true, AutoHeadingID: po, Attribute: po, Unsafe: true, XHTML: true, HardWraps: true})
 		}
 	}
+	// the second option variant, and renderer flags given to html.NewRenderer directly
+	out = append(out, Spec{Ext: ExtTypographer, Rich: true, Rich2: true}, Spec{Ext: ExtTypographer, Rich: true, Rich2: true, XHTML: true, Attribute: true},
+		Spec{Ext: ExtAll, Rich: true, Rich2: true, AutoHeadingID: true}, Spec{Ext: ExtGFM, Rich: true, Rich2: true, Unsafe: true},
+		Spec{Ext: ExtCore, Direct: true}, Spec{Ext: ExtCore, Direct: true, XHTML: true, HardWraps: true}, Spec{Ext: ExtCore, Direct: true, Unsafe: true, Attribute: true})
 	return out
 }
 
@@ -427,6 +480,10 @@ func Parse(name string) (Spec, bool) {
 			s.FootnotePfx = p[6:]
 		case p == "rich":
 			s.Rich = true
+		case p == "rich2":
+			s.Rich2 = true
+		case p == "direct":
+			s.Direct = true
 		default:
 			return s, false
 		}
